@@ -55,4 +55,10 @@ CLAIMED = {
         "note": "Trusted: Lean kernel, translator (C11 tables), correspondence harness; serde header codec as hypothesis (exercised on every generated header); JSON envelope and storage path by correspondence / oracle; Ed25519 unproved.",
         "technique": "Lean 4 proof (encode/decode round trip, base64url bijection) + correspondence + implementation-side oracle for the storage path",
     },
+    "C18": {
+        "text": "Lean 4 theorems over member lists REGENERATED from key_params.rs / key.rs / key_operation.rs (struct fields, to_public cleared/kept lists, is_public / is_private test lists, invert table, thumbprint member lists, untagged variant order, the two behaviour flags): closed table facts tie the regenerated lists to an independently written RFC 7518 private/public member specification; a key is public iff it has no private member; the public projection has no private member, keeps the public parameters and the type, is public and is idempotent; the thumbprint hash input is a function of the declared type and the required public members only; declared type = parameter family for every constructor, setter, projection and for deserialisation; the verification-method constructor refuses private material. Tied to the code by every private-member subset x declared type x member permutation.",
+        "design_ref": "DESIGN.md §7.18",
+        "note": "Trusted: Lean kernel, translator, correspondence harness; serde glue modelled and tied by correspondence; SHA-256 not modelled (hash input only).",
+        "technique": "Lean 4 proof over regenerated member tables (closed table facts + general lemmas) + correspondence",
+    },
 }
